@@ -5,7 +5,9 @@ from pv import obs_tables as T
 KEYS = ['parso.python.prefix.PrefixPart.end_pos', 'parso.python.prefix.PrefixPart.__init__',
         'parso.python.prefix.PrefixPart.create_spacing_part', 'parso.python.tokenize._close_fstring_if_necessary',
         'parso.python.tokenize._split_illegal_unicode_name', 'parso.python.tokenize._find_fstring_string',
-        'parso.python.prefix.split_prefix', 'parso.python.tokenize.tokenize_lines.dedent_if_necessary']
+        'parso.python.prefix.split_prefix', 'parso.python.tokenize.tokenize_lines.dedent_if_necessary',
+        'parso.python.tokenize.FStringNode.__init__', 'parso.python.tokenize.FStringNode.open_parentheses',
+        'parso.python.tokenize.FStringNode.close_parentheses', 'parso.python.tokenize.FStringNode.is_in_expr']
 
 
 def _regex():
